@@ -25,20 +25,23 @@ type parkee struct {
 func (b *Broker) EnableControl() *Controller {
 	c := &Controller{b: b, rules: map[string]bool{}, parked: map[string][]*parkee{}}
 	c.cond = sync.NewCond(&c.mu)
-	b.ctl = c
+	b.ctl.Store(c)
 	ctlActive.Add(1)
 	return c
 }
 
 func (b *Broker) DisableControl() {
-	if b.ctl != nil {
-		b.ctl.ReleaseAll()
-		b.ctl = nil
+	if c := b.ctl.Load(); c != nil {
+		c.ReleaseAll()
+		b.ctl.Store(nil)
 		ctlActive.Add(-1)
 	}
 }
 
 func (c *Controller) hit(cl *Client, point, id string) {
+	if point == "attach.handler_return" {
+		cl.RetSeq.Store(c.b.Seq.Next()) // stamped before the handler signals the wait group
+	}
 	c.mu.Lock()
 	c.trace = append(c.trace, point+":"+id)
 	key := ""
@@ -182,8 +185,8 @@ func hookPoint(point, id string) {
 		return
 	}
 	if v, ok := goMap.Load(goid()); ok {
-		if cl := v.(*Client); cl.B.ctl != nil {
-			cl.B.ctl.hit(cl, point, id)
+		if ctl := v.(*Client).B.ctl.Load(); ctl != nil {
+			ctl.hit(v.(*Client), point, id)
 		}
 	}
 }
